@@ -119,29 +119,60 @@ Qed.
 Lemma list_diff_g_common_prefix p a b : list_diff_g false (p ++ a) (p ++ b) = list_diff_g false a b.
 Proof. rewrite !list_diff_g_false. apply list_diff_common_prefix. Qed.
 
-Lemma canonical_filter_map_added b : canonical_filter (map (fun e : kv => Added (fst e) (snd e)) b) = map (fun e => Added (fst e) (snd e)) b.
-Proof. induction b as [|e b IH]; [reflexivity|]. cbn [map canonical_filter filter]. fold (canonical_filter (map (fun e : kv => Added (fst e) (snd e)) b)). rewrite IH. reflexivity. Qed.
-
-Lemma canonical_filter_map_removed b : canonical_filter (map (fun e : kv => Removed (fst e) (snd e)) b) = map (fun e => Removed (fst e) (snd e)) b.
-Proof. induction b as [|e b IH]; [reflexivity|]. cbn [map canonical_filter filter]. fold (canonical_filter (map (fun e : kv => Removed (fst e) (snd e)) b)). rewrite IH. reflexivity. Qed.
-
-Lemma canonical_filter_cons c l :
-  canonical_filter (c :: l) =
-  if match c with Modified _ v v' => negb (v =? v') | _ => true end then c :: canonical_filter l else canonical_filter l.
+Lemma list_diff_d_cons dec ka va a kb vb b :
+  list_diff_d dec ((ka, va) :: a) ((kb, vb) :: b) =
+  if ka <? kb then Removed ka va :: list_diff_d dec a ((kb, vb) :: b)
+  else if kb <? ka then Added kb vb :: list_diff_d dec ((ka, va) :: a) b
+  else if dec va =? dec vb then list_diff_d dec a b
+  else Modified ka va vb :: list_diff_d dec a b.
 Proof. reflexivity. Qed.
 
-(* makeDiffCallBack after either flag value leaves the plain diff *)
-Lemma canonical_filter_g am a : forall b, canonical_filter (list_diff_g am a b) = list_diff_g false a b.
+Lemma canonical_filter_map_added dec b :
+  canonical_filter dec (map (fun e : kv => Added (fst e) (snd e)) b) = map (fun e => Added (fst e) (snd e)) b.
+Proof.
+  induction b as [|e b IH]; [reflexivity|]. cbn [map canonical_filter filter].
+  fold (canonical_filter dec (map (fun e : kv => Added (fst e) (snd e)) b)). rewrite IH. reflexivity.
+Qed.
+
+Lemma canonical_filter_map_removed dec b :
+  canonical_filter dec (map (fun e : kv => Removed (fst e) (snd e)) b) = map (fun e => Removed (fst e) (snd e)) b.
+Proof.
+  induction b as [|e b IH]; [reflexivity|]. cbn [map canonical_filter filter].
+  fold (canonical_filter dec (map (fun e : kv => Removed (fst e) (snd e)) b)). rewrite IH. reflexivity.
+Qed.
+
+Lemma canonical_filter_cons dec c l :
+  canonical_filter dec (c :: l) =
+  if match c with Modified _ v v' => negb (dec v =? dec v') | _ => true end
+  then c :: canonical_filter dec l else canonical_filter dec l.
+Proof. reflexivity. Qed.
+
+(* makeDiffCallBack after the differ (either flag value) leaves the diff of the decoded rows:
+   a key whose two stored values decode to the same row is not reported *)
+Lemma canonical_filter_g dec am a : forall b,
+  canonical_filter dec (list_diff_g am a b) = list_diff_d dec a b.
 Proof.
   induction a as [|[ka va] a IHa]; intros b; [apply canonical_filter_map_added|].
   induction b as [|[kb vb] b IHb]; [apply canonical_filter_map_removed|].
-  rewrite !list_diff_g_cons. destruct (ka <? kb).
+  rewrite list_diff_g_cons, list_diff_d_cons. destruct (ka <? kb).
   - rewrite canonical_filter_cons. f_equal. apply IHa.
   - destruct (kb <? ka).
     + rewrite canonical_filter_cons. f_equal. exact IHb.
-    + cbn [orb]. destruct (va =? vb) eqn:E; cbn [negb]; rewrite ?orb_false_r, ?orb_true_r.
-      * destruct am; [rewrite canonical_filter_cons, E; cbn [negb]|]; apply IHa.
-      * rewrite canonical_filter_cons, E. cbn [negb]. f_equal. apply IHa.
+    + destruct (va =? vb) eqn:E; cbn [negb]; rewrite ?orb_false_r, ?orb_true_r.
+      * apply N.eqb_eq in E. subst vb. rewrite N.eqb_refl.
+        destruct am; [rewrite canonical_filter_cons, N.eqb_refl; cbn [negb]|]; apply IHa.
+      * rewrite canonical_filter_cons. destruct (dec va =? dec vb); cbn [negb]; [apply IHa | f_equal; apply IHa].
+Qed.
+
+(* with an injective decoding (one encoding per row) this is the byte-level diff *)
+Lemma list_diff_d_id a : forall b, list_diff_d (fun v => v) a b = list_diff a b.
+Proof.
+  induction a as [|[ka va] a IHa]; intros b; [reflexivity|].
+  induction b as [|[kb vb] b IHb]; [reflexivity|].
+  rewrite list_diff_d_cons, list_diff_head.
+  destruct (ka <? kb); [f_equal; apply IHa|].
+  destruct (kb <? ka); [f_equal; exact IHb|].
+  destruct (va =? vb); [apply IHa | f_equal; apply IHa].
 Qed.
 
 Lemma split_unique (l1 : list kv) : forall l2 r1 r2 e,
@@ -491,13 +522,13 @@ Proof.
 Qed.
 
 (* DiffMaps (either flag value): exactly the keys whose presence or value differs *)
-Theorem diff_maps_spec (addr_eqb : node -> node -> bool) :
+Theorem diff_maps_spec (addr_eqb : node -> node -> bool) (dec : val -> N) :
   (forall x y, addr_eqb x y = true -> x = y) ->
   forall am a b, wf_root a -> wf_root b ->
-    diff_maps addr_eqb am a b = Some (list_diff (flatten a) (flatten b)).
+    diff_maps addr_eqb dec am a b = Some (list_diff_d dec (flatten a) (flatten b)).
 Proof.
   intros addr_inj am a b Ha Hb. unfold diff_maps. rewrite (tree_diff_spec addr_eqb addr_inj am a b Ha Hb).
-  cbn [option_map]. rewrite canonical_filter_g, list_diff_g_false. reflexivity.
+  cbn [option_map]. rewrite canonical_filter_g. reflexivity.
 Qed.
 
 Lemma filter_all_true' {A} (l : list A) : filter (fun _ => true) l = l.
@@ -507,8 +538,8 @@ Proof. induction l as [|x l IH]; [reflexivity|]. cbn [filter]. rewrite IH. refle
    Full statement (NOT proved):
 
      range_diff_spec : forall lo hi a b, wf_root a -> wf_root b ->
-       key_range_diff addr_eqb lo hi a b = Some (range_list_diff lo hi (flatten a) (flatten b))
-       /\ range_diff addr_eqb lo hi a b = Some (range_list_diff lo hi (flatten a) (flatten b))
+       key_range_diff addr_eqb dec lo hi a b = Some (range_list_diff_d dec lo hi (flatten a) (flatten b))
+       /\ range_diff addr_eqb dec lo hi a b = Some (range_list_diff_d dec lo hi (flatten a) (flatten b))
 
    Missing: (a) the start/stop cursors built by newCursorAtKey / the range search
    functions satisfy `cinv` and have exactly the entries >= the bound ahead of them
@@ -518,14 +549,14 @@ Proof. induction l as [|x l IH]; [reflexivity|]. cbn [filter]. rewrite IH. refle
    Everything else (skipCommon / skipCommonParents, advance, fuel) is covered by
    skip_ok / diff_ok / diff_total above, which do not depend on where the cursors start.
    Proved here: the unbounded range. *)
-Theorem key_range_diff_unbounded_partial (addr_eqb : node -> node -> bool) :
+Theorem key_range_diff_unbounded_partial (addr_eqb : node -> node -> bool) (dec : val -> N) :
   (forall x y, addr_eqb x y = true -> x = y) ->
   forall a b, wf_root a -> wf_root b ->
-    key_range_diff addr_eqb None None a b = Some (range_list_diff None None (flatten a) (flatten b)).
+    key_range_diff addr_eqb dec None None a b = Some (range_list_diff_d dec None None (flatten a) (flatten b)).
 Proof.
   intros addr_inj a b Ha Hb.
-  change (key_range_diff addr_eqb None None a b) with (diff_maps addr_eqb false a b).
-  rewrite (diff_maps_spec addr_eqb addr_inj false a b Ha Hb). unfold range_list_diff, d_range.
+  change (key_range_diff addr_eqb dec None None a b) with (diff_maps addr_eqb dec false a b).
+  rewrite (diff_maps_spec addr_eqb dec addr_inj false a b Ha Hb). unfold range_list_diff_d, d_range.
   cbn [in_range andb]. rewrite !filter_all_true'. reflexivity.
 Qed.
 
